@@ -121,6 +121,24 @@ SignFactorEv ==
      IN Finish(0, Ev.ok /\ mp = Ev.mp /\ Ev.ext = Ev.int /\ Ev.rnglog = OneDraw,
                [mp_equal |-> mp = Ev.mp, ext_equals_int |-> Ev.ext = Ev.int, rnglog |-> Ev.rnglog])
 
+\* ---- SignAttempts: the per-attempt log of one signing call (hook in the rejection loop): the
+\* decision of every attempt is the one Algorithm 7 lines 23 and 28 prescribe for the logged norms
+\* and hint weight, kappa advances by l per attempt, and only the last attempt is accepted.
+\* (Cheap: no lattice arithmetic, so it runs on thousands of signatures and catches boundary slips
+\* on the rare paths; the rare ones are also recomputed in full as SignInternal events.)
+AttemptOK(a, i, n) ==
+  LET kappa == a[1]  zn == a[2]  r0n == a[3]  ct0n == a[4]  wt == a[5]  dec == a[6]
+      rej1 == zn >= GAMMA1 - BETA \/ r0n >= GAMMA2 - BETA
+  IN /\ kappa = (i - 1) * LL
+     /\ IF rej1 THEN dec = 1
+        ELSE IF ct0n >= GAMMA2 \/ wt > OMEGA THEN dec = 2 ELSE dec = 0
+     /\ (dec = 0) <=> (i = n)
+SignAttemptsEv ==
+  /\ Is("SignAttempts")
+  /\ LET n == Len(Ev.attempts)
+         badi == { i \in 1 .. n : ~AttemptOK(Ev.attempts[i], i, n) }
+     IN Finish(0, n >= 1 /\ badi = {}, [bad_attempts |-> badi, attempts |-> Ev.attempts])
+
 \* ---- Same: two observations that the specification says are one value (determinism)
 SameEv == Is("Same") /\ Finish(0, Ev.a = Ev.b, [what |-> Ev.what])
 
@@ -133,7 +151,7 @@ DoneEv == /\ l = Len(tr) + 1 /\ pc = 0
           /\ TLCSet(1, l)
           /\ pc' = 99 /\ step' = step + 1 /\ UNCHANGED << tr, l, st, bad >>
 
-Next == KeyGenEv \/ KeyGenLiteEv \/ KeyGenBothEv \/ SignEv \/ SignFactorEv \/ SameEv \/ VerifyEv \/ FormatEv
+Next == KeyGenEv \/ KeyGenLiteEv \/ KeyGenBothEv \/ SignEv \/ SignFactorEv \/ SignAttemptsEv \/ SameEv \/ VerifyEv \/ FormatEv
         \/ PanicEv \/ DoneEv
 Spec == Init /\ [][Next]_vars
 
